@@ -42,6 +42,9 @@ func notifsFor(leaves []*lib.Leaf, rng *rand.Rand) []*gpb.Notification {
 			k = rng.Intn(k + 1)
 		}
 		nf := &gpb.Notification{Timestamp: 1, Prefix: lib.ToGNMIPath(chunk[0].Elems[:k])}
+		if k == 0 && rng.Intn(2) == 0 {
+			nf.Prefix = nil // no prefix at all, absolute paths
+		}
 		for _, l := range chunk {
 			tv, err := lib.LeafTV(l)
 			if err != nil {
